@@ -366,7 +366,7 @@ def run_property(pid: str, tier: str, seed: int, repo: str, only_clause: str | N
         },
         "assumptions": getattr(mod, "ASSUMPTIONS", []),
     }
-    if only_clause is None or os.environ.get("VERIF_WRITE_PARTIAL"):
+    if (only_clause is None and os.path.abspath(repo) == "/repo") or os.environ.get("VERIF_WRITE_PARTIAL"):
         os.makedirs(os.path.join(VERIF, "evidence"), exist_ok=True)
         with open(os.path.join(VERIF, "evidence", f"{pid}.json"), "w") as fh:
             json.dump(evidence, fh, indent=1, default=str)
